@@ -56,8 +56,8 @@ def cache_key_injective(c):
     c.replay("code", code=REPLAY_KEY)
 
 
-def _mk_check_cache(kind, sfx=""):
-    @contract(MIXIN + "._check_cache" + sfx, prop="C23", name=f"_check_cache{sfx}[{kind}]")
+def _mk_check_cache(kind, sfx="", prop="C23"):
+    @contract(MIXIN + "._check_cache" + sfx, prop=prop, name=f"_check_cache{sfx}[{kind}]")
     def cc_(c):
         key = c.str("cache_key")
         globs = c.any("globals")
